@@ -51,9 +51,13 @@ fn one(out: &mut impl Write, kind: &str, worker: &str, mode: &str, socket_worker
     let head = format!("sv {} {} {} {} {}", kind, worker, mode, socket_workers, swarm_workers);
     if mode == "bind" {
         // a socket worker cannot set up its socket: the port is taken (no SO_REUSEPORT on our side)
-        let port = crate::net::free_port();
-        let _l = TcpListener::bind(("127.0.0.1", port));
-        let _u = UdpSocket::bind(("127.0.0.1", port));
+        // (the port must really be held by us - another process may have taken it in between - or the case shows nothing)
+        let mut held = None;
+        for _ in 0..20 {
+            let port = crate::net::free_port();
+            if let (Ok(l), Ok(u)) = (TcpListener::bind(("127.0.0.1", port)), UdpSocket::bind(("127.0.0.1", port))) { held = Some((port, l, u)); break; }
+        }
+        let Some((port, _l, _u)) = held else { writeln!(out, "{} => NO-OBSERVATION could-not-occupy-a-port", head).unwrap(); return; };
         let exe = std::env::current_exe().unwrap();
         let t0 = Instant::now();
         let mut child = std::process::Command::new(exe).args(["serve", kind, &format!("port={}", port), "use_ipv6=false", &format!("socket_workers={}", socket_workers), &format!("swarm_workers={}", swarm_workers)])
